@@ -35,7 +35,7 @@ def writable(name: str, context: str = '[]') -> bool:
         return False
     if context == '{}' and not balanced(name, '{', '}'):
         return False
-    if context == '<>' and ('@' in name or '<' in name or '>' in name):
+    if context == '<>' and '@' in name:     # '<' and '>' inside the bracketed name are part of the name ('Gln->pyro-Glu')
         return False
     if name != name.strip():
         return False
@@ -331,7 +331,7 @@ def gen_mod(rng, cfg: GenCfg, context: str = '[]', allow_mult: bool = True, weig
         m.mult = rng.randint(2, 5) if rng.random() < 0.9 else rng.choice([10, 11, 12, 25, 100])   # two/three-digit ^n
     if context == '{}' and not balanced(m.text, '{', '}'):
         return gen_mod(rng, cfg, context, allow_mult, weights)
-    if context == '<>' and ('@' in m.text or '<' in m.text or '>' in m.text):
+    if context == '<>' and '@' in m.text:      # '<' / '>' inside the bracketed value belong to the value
         return gen_mod(rng, cfg, context, allow_mult, weights)
     return m
 
